@@ -1,4 +1,4 @@
 (* Extraction of the Java builtin model applied to the regenerated table (used by props/c12.py). *)
 Require Import ExtrOcamlBasic.
 Require Import AV.Java.Tool.
-Extraction "Java/extracted/javab.ml" tool_eval tool_rows tool_sig.
+Extraction "Java/extracted/javab.ml" tool_eval tool_rows tool_sig tool_bint.
